@@ -26,10 +26,10 @@ pub mod arraymap {
     impl<K: Eq, V> HashMap<K, V> {
         pub fn new() -> Self { Self { slots: Box::new([const { None }; CAP]) } }
         pub fn with_capacity(_n: usize) -> Self { Self::new() }
-        fn find(&self, k: &K) -> Option<usize> {
+        fn find<Q: ?Sized + Eq>(&self, k: &Q) -> Option<usize> where K: core::borrow::Borrow<Q> {
             let mut i = 0;
             while i < CAP {
-                if let Some((kk, _)) = &self.slots[i] { if kk == k { return Some(i); } }
+                if let Some((kk, _)) = &self.slots[i] { if kk.borrow() == k { return Some(i); } }
                 i += 1;
             }
             None
@@ -40,11 +40,11 @@ pub mod arraymap {
             n
         }
         pub fn is_empty(&self) -> bool { self.len() == 0 }
-        pub fn contains_key(&self, k: &K) -> bool { self.find(k).is_some() }
-        pub fn get(&self, k: &K) -> Option<&V> {
+        pub fn contains_key<Q: ?Sized + Eq>(&self, k: &Q) -> bool where K: core::borrow::Borrow<Q> { self.find(k).is_some() }
+        pub fn get<Q: ?Sized + Eq>(&self, k: &Q) -> Option<&V> where K: core::borrow::Borrow<Q> {
             match self.find(k) { Some(i) => self.slots[i].as_ref().map(|(_, v)| v), None => None }
         }
-        pub fn get_mut(&mut self, k: &K) -> Option<&mut V> {
+        pub fn get_mut<Q: ?Sized + Eq>(&mut self, k: &Q) -> Option<&mut V> where K: core::borrow::Borrow<Q> {
             match self.find(k) { Some(i) => self.slots[i].as_mut().map(|(_, v)| v), None => None }
         }
         pub fn insert(&mut self, k: K, v: V) -> Option<V> {
@@ -60,7 +60,7 @@ pub mod arraymap {
             }
             panic!("outside bound: map shim capacity exceeded");
         }
-        pub fn remove(&mut self, k: &K) -> Option<V> {
+        pub fn remove<Q: ?Sized + Eq>(&mut self, k: &Q) -> Option<V> where K: core::borrow::Borrow<Q> {
             match self.find(k) { Some(i) => self.slots[i].take().map(|(_, v)| v), None => None }
         }
         pub fn clear(&mut self) { let mut i = 0; while i < CAP { self.slots[i] = None; i += 1; } }
